@@ -77,7 +77,7 @@ class Bench:
         self.nano_vm = os.path.join(tree, "bin/nano_vm")
         self.nano_virt = os.path.join(tree, "bin/nano_virt")
         self.hooked = "NANOLANG_VERIF_VMD_DIR" in open(os.path.join(tree, "src/nanovm/vmd_protocol.c")).read()
-        self.traced = "NANOLANG_VERIF_VMD_TRACE" in open(os.path.join(tree, "src/nanovm/vmd_server.c")).read()
+        self.traced = "NANOLANG_VERIF_TRACE_VMD" in open(os.path.join(tree, "src/nanovm/vmd_server.c")).read()
         if self.hook_applied_here:
             self.ctx.assumptions.append("hook H4 (hooks/h4-vmd.patch) was not in the tree under test; it was applied to the scratch copy before building")
         if not self.hooked:
